@@ -86,6 +86,24 @@ def stage(chk, name, t0):
     vlib.log("[%s] %s: %.1fs" % (chk.prop, name, time.time() - t0))
 
 
+def layout_error():
+    """None when Gen/Layout.v is the translator's output for the current tree
+    and its compiled form is up to date; otherwise the reason."""
+    v = os.path.join(vlib.COQ, "Gen", "Layout.v")
+    vo = v + "o"
+    if not os.path.exists(v):
+        return "Gen/Layout.v was not generated"
+    text = open(v).read()
+    if "Translation failed." in text:
+        with vlib.lock("coq"):
+            if os.path.exists(vo):
+                os.remove(vo)
+        return text[:1500]
+    if not os.path.exists(vo) or os.path.getmtime(vo) < os.path.getmtime(v):
+        return "Gen/Layout.v does not compile (see coq_build_log_tail)"
+    return None
+
+
 def bump(hist, keys):
     for k in keys:
         hist[k] = hist.get(k, 0) + 1
@@ -103,6 +121,21 @@ def kind_histogram(recs):
                 ks.add(k.split(":")[0] + ":" + p)
         bump(hist, sorted(ks))
     return dict(sorted(hist.items()))
+
+
+REQUIRED_KINDS = ["data:nil", "data:empty", "data:small", "data:large", "user:none", "user:int", "user:string",
+                  "shape:placeholder", "shape:ordinary", "shape:reference-with-data", "load:error", "load:nil",
+                  "ua:edge", "ua:random", "created:z:utc", "created:z:fixed-minutes", "created:z:random-minutes",
+                  "created:t:year1", "created:t:year9999", "created:t:anywhere", "ip:s:bytes", "ip:s:utf8", "ip:s:empty"]
+
+
+def generator_selftest(chk, hist, required, what):
+    """A generator that no longer reaches an input class the property depends
+    on must not pass silently."""
+    missing = [k for k in required if not hist.get(k)]
+    chk.coverage.setdefault("generator_selftest_missing", []).extend(missing)
+    chk.oblige("generator self-test: every required input class of the %s occurred" % what, not missing)
+    return not missing
 
 
 def digest(obj):
@@ -144,8 +177,9 @@ def nontrivial(rec):
 class CodecCheck:
     """One run of the C16 or C17 check."""
 
-    def __init__(self, chk, prop, codec, theorems):
+    def __init__(self, chk, prop, codec, theorems, lemmas=None):
         self.chk, self.prop, self.codec, self.theorems = chk, prop, codec, theorems
+        self.lemmas = lemmas or {}   # theorem -> (proof module, lemma it is an `exact` of)
         self.thorough = chk.tier == "thorough"
         self.failing = []          # (record, why) with a concrete input
         self.no_input = []         # dicts: what no longer checks, without input
@@ -156,10 +190,33 @@ class CodecCheck:
     def proofs(self):
         ok, out = vlib.standard_proof_stage(self.chk, self.prop, self.theorems)
         self.proof_ok, self.proof_log = ok, out
-        # can the regenerated tables be used at all?
-        self.tables_ok = coq_bool("true") is True
+        # can the regenerated tables be used at all? (a Layout.vo left over from
+        # an earlier tree must not be mistaken for the current one)
+        self.layout_error = layout_error()
+        if not ok and self.lemmas:
+            self.diagnose()
+        self.tables_ok = self.layout_error is None and coq_bool("true") is True
+        self.chk.coverage["layout_error"] = self.layout_error
         self.chk.oblige("translator accepts the current session.go (Gen/Layout.v regenerated and compiles)", self.tables_ok)
         return ok
+
+    def diagnose(self):
+        """Properties/<prop>.v did not compile as a whole: find out which of
+        its theorems still stand, each through the lemma it is an `exact` of
+        (proof files are split so that one broken lemma does not take the
+        others with it)."""
+        still = {}
+        for th in self.theorems:
+            mod, lemma = self.lemmas[th]
+            if self.layout_error is not None and mod != "CodecText":
+                still[th] = False       # everything else is stated over Gen/Layout.v
+                continue
+            text = ("From Sessions Require Import Model.Base Model.Codec Proofs.%s.\nCheck %s.\n"
+                    'Goal True. idtac "@@". Abort.\nPrint Assumptions %s.\n' % (mod, lemma, lemma))
+            rc, out = vlib.coq_run("diag_%s_%d" % (th, os.getpid()), text)
+            still[th] = rc == 0 and out.split("@@")[-1].strip() == "Closed under the global context"
+        self.chk.coverage["theorems_standing_by_lemma"] = still
+        self.chk.obligations = [(n, still.get(n, ok)) for n, ok in self.chk.obligations]
 
     def harness(self):
         self.binary, blog = vlib.build_harness()
